@@ -1728,7 +1728,9 @@ class Calendar(Component):
         """
         tzids = self.get_used_tzids()
         for timezone in self.timezones:
-            tzids.remove(timezone.tz_name)
+            if "TZID" in timezone:
+                # the timezone might not be used
+                tzids.discard(timezone.tz_name)
         return tzids
 
     @property
